@@ -73,6 +73,9 @@ type Path struct {
 	traceLines []string
 	onceDone   map[*value]bool
 	bypass     string
+	dom        map[string]*byteDom
+	entangled  map[string]bool
+	domDecided int
 }
 
 type knownRegion struct {
@@ -83,6 +86,7 @@ type knownRegion struct {
 func (p *Path) assume(c *Term) {
 	p.solver.Assert(c)
 	p.pcCount++
+	p.noteConstraint(c)
 }
 
 // decide returns the direction taken for condition c, forking if both are feasible.
@@ -108,42 +112,109 @@ func (p *Path) decideX(c *Term, exploreFalse bool) bool {
 		}
 		return d.Val
 	}
-	var rt, rf SatResult
-	// model cache: the last model tells us one feasible side for free
-	known := 0 // 1: true side known feasible, 2: false side known feasible
-	if p.lastModel != nil {
-		if v, ok := c.Eval(p.lastModel, map[*Term]uint64{}); ok {
+	// 0 = not yet known
+	const (
+		unk = iota
+		feas
+		infeas
+	)
+	st, sf := unk, unk
+	// 1. byte-domain reasoning (no solver)
+	var dv *Term
+	exact := false
+	if v, nT, nF, ok := p.domSplit(c); ok {
+		dv = v
+		if nT == 0 {
+			st = infeas
+		}
+		if nF == 0 {
+			sf = infeas
+		}
+		if !p.entangled[v.name] {
+			exact = true
+			if nT > 0 {
+				st = feas
+			}
+			if nF > 0 {
+				sf = feas
+			}
+			p.domDecided++
+		}
+	}
+	if st == infeas && sf == unk {
+		sf = feas // the path condition is satisfiable, so one side is
+	}
+	if sf == infeas && st == unk {
+		st = feas
+	}
+	// 2. model cache: the last model shows one feasible side for free
+	var mT Model
+	modelSays := 0
+	if p.lastModel != nil && (st == unk || sf == unk || st == feas) {
+		if v, ok := c.Ev(p.lastModel); ok {
 			if v != 0 {
-				known = 1
+				modelSays = 1
+				mT = p.lastModel
+				if st == unk {
+					st = feas
+				}
 			} else {
-				known = 2
+				modelSays = 2
+				if sf == unk {
+					sf = feas
+				}
 			}
 		}
 	}
-	var mT Model
-	if known == 1 {
-		rt = Sat
-		mT = p.lastModel
-	} else {
-		rt = p.checkModel(c)
-		if rt == Sat {
+	// 3. solver
+	if st == unk {
+		switch p.checkModel(c) {
+		case Sat:
+			st = feas
 			mT = p.lastModel
+		case Unsat:
+			st = infeas
+			if sf == unk {
+				sf = feas
+			}
+		default:
+			st = feas
+			p.unknowns++
+			p.lastModel = nil
 		}
 	}
-	if rt == Unsat {
-		rf = Sat
-	} else if !exploreFalse {
+	if !exploreFalse {
+		sf = infeas
+	}
+	if sf == unk {
+		switch p.checkModel(Not(c)) {
+		case Sat:
+			sf = feas
+		case Unsat:
+			sf = infeas
+		default:
+			sf = feas
+			p.unknowns++
+		}
+	}
+	if st == feas {
+		// the true side is taken below: keep only a model that satisfies c
+		if mT != nil {
+			p.lastModel = mT
+		} else if exact && dv != nil && p.lastModel != nil {
+			p.fixModel(c, dv, true)
+		} else if modelSays != 1 {
+			p.lastModel = nil
+		}
+	} else if modelSays == 1 {
+		p.lastModel = nil
+	}
+	var rt, rf SatResult = Sat, Sat
+	if st == infeas {
+		rt = Unsat
+	}
+	if sf == infeas {
 		rf = Unsat
-	} else if known == 2 {
-		rf = Sat
-	} else {
-		rf = p.checkModel(Not(c))
-	}
-	if rt == Unknown || rf == Unknown {
-		p.unknowns++
-	}
-	if rt != Unsat {
-		p.lastModel = mT // true side is taken below; keep only a model that satisfies c
 	}
 	tFeas := rt != Unsat
 	fFeas := rf != Unsat
@@ -296,7 +367,7 @@ func (p *Path) checkProperty(c *Term, label, kind string) {
 	// classify the witness
 	region := ""
 	for _, k := range p.known {
-		if v, ok := k.pred.Eval(m, map[*Term]uint64{}); ok && v != 0 {
+		if v, ok := k.pred.Ev(m); ok && v != 0 {
 			region = k.id
 			break
 		}
